@@ -76,7 +76,7 @@ fn connect_env() -> bool {
     }
 }
 
-io_harness!(c18_mode_connect, 7, {
+io_harness!(c18_mode_connect, 6, {
     let blocking0 = connect_env();
     let f: extern "C" fn(c_int, *const libc::sockaddr, libc::socklen_t) -> c_int = mock_connect;
     let addr: libc::sockaddr = unsafe { std::mem::zeroed() };
